@@ -541,6 +541,8 @@ type hsServer struct {
 	fd      int    // hsReserve: the bound socket that does not listen yet (-1 once it does)
 	// how this server's frames reach the client's socket (hsWriteFrame): "" = one write per frame
 	delivery string
+	// what the conformant server does with a request it refuses: "" = answers nothing, "close" = drops the connection
+	refusal string
 }
 
 func hsListen() *hsServer {
@@ -877,6 +879,9 @@ func (s *hsServer) serve(c net.Conn, res *hsSrvResult, sec *hsSecrets, replies [
 		s.mu.Unlock()
 		if reply != nil {
 			s.sendPlain(c, reply)
+		} else if why != "" && s.refusal == "close" {
+			c.Close()
+			return
 		}
 	}
 }
@@ -1276,6 +1281,9 @@ type hsPlan struct {
 	// the file.
 	Delivery    string
 	SessionFile string
+	// Refusal: what the conformant server does with a request it has to refuse. "" / "silent": it answers nothing
+	// and keeps the connection; "close": it drops the connection, as a real server does (c06.draw)
+	Refusal string
 }
 
 var (
@@ -1500,6 +1508,7 @@ func hsExchangePlan(p *hsPlan) *hsRun {
 	}
 	run := &hsRun{Addr: srv.Addr()}
 	srv.delivery = p.Delivery
+	srv.refusal = p.Refusal
 	run.Srv = srv.arm(secrets, replies)
 	store := &hsStore{Mode: p.StoreMode}
 	cfg := mtproto.Config{SessionStorage: store, ServerHost: srv.Addr(), PublicKey: p.Pub}
